@@ -131,6 +131,31 @@ pub fn seed_corpus(target: &str) -> Vec<Vec<u8>> {
     out
 }
 
+/// Entry point used by the cargo-fuzz targets. libfuzzer-sys installs a panic hook that aborts on
+/// ANY panic, including the ones an oracle catches on purpose (e.g. 'Invalid route' while building
+/// a route table). So the harness hook replaces it, panics that escape the oracle and property
+/// violations abort the process explicitly, and caught panics do not.
+pub fn guarded(target: &str, data: &[u8]) {
+    static HOOK: std::sync::Once = std::sync::Once::new();
+    HOOK.call_once(|| {
+        let _ = std::panic::take_hook();
+        crate::panics::install();
+    });
+    crate::panics::clear_thread();
+    match std::panic::catch_unwind(|| run_target(target, data)) {
+        Ok(Some(Ok(()))) | Ok(None) => {}
+        Ok(Some(Err(msg))) => {
+            eprintln!("PROPERTY VIOLATION: {msg}");
+            std::process::abort();
+        }
+        Err(_) => {
+            let recs = crate::panics::take_thread();
+            eprintln!("PANIC escaped the oracle: {}", recs.last().map(|p| p.describe()).unwrap_or_default());
+            std::process::abort();
+        }
+    }
+}
+
 pub fn run_target(target: &str, data: &[u8]) -> Option<Result<(), String>> {
     Some(match target {
         "wire_request" => wire_request(data),
